@@ -55,6 +55,8 @@ def campaign_c14(seed, tier):
     # tick-driven timeout through the frame path
     for i in range(12 if tier == "quick" else 300):
         scs.append(sc_schedule("c14-tick-%d" % i, rng.randrange(1 << 30), 80, long_gaps=True))
+    for i in range(6 if tier == "quick" else 100):
+        scs.append(sc_idle_engine("c14-idle-%d" % i, rng.randrange(1 << 30)))
     return scs
 
 
@@ -270,6 +272,31 @@ def sc_band_ticks(name, seed):
 
 
 # --------------------------------------------------------------------------- C12 (and tick schedules)
+def sc_idle_engine(name, seed):
+    """The inactivity rule while the mapping engine is idle: sessions recorded through the API (or left over),
+    a frame that is not a Discover arms the 30 s timer, then silence: the tick must still empty the table and
+    the periodic Hellos must stop with it."""
+    rng = random.Random(seed)
+    lines = ["CLOCK %d" % rng.choice([1000, 0, 999, 123456000, (1 << 32) - 20000]), "NEW"]
+    for _ in range(rng.randrange(1, 4)):
+        lines.append("TADD %d %d %d" % (rng.choice([1, 2, 3]), rng.choice([1, 2]), rng.choice([1, 2])))
+    if rng.random() < 0.7:
+        lines.append("ENEW")
+    m = key_mac(rng.choice([1, 2, 5]))
+    f = rng.choice([hello(0, key_mac(21), 1, key_mac(1), key_mac(1)), probe(m, OWN, m, OWN), query(m, OWN, seq=5),
+                    generic(0, OP_CHARGE, m, OWN), generic(0, OP_FLAT, m, OWN), generic(0, 0x33, m, OWN), generic(2, 0, m, OWN)])
+    lines.append("GLUE %d 0 %s" % (len(f), f.hex()))
+    if rng.random() < 0.4:
+        lines.append("TADD %d 1 1" % rng.choice([1, 4]))
+    step = rng.choice([100, 100, 250, 1000])
+    t = 0
+    while t < 36000:
+        lines += ["ADV %d" % step, "TICK"]
+        t += step
+    lines += ["TADD 2 2 2", "ADV 100", "TICK", "ADV 1000", "TICK"]      # a session recorded afterwards lives: the timer fired once
+    return Scenario(name, lines)
+
+
 def sc_schedule(name, seed, n, long_gaps=False):
     """interleavings of tick, clock advance, session add/refresh/complete/remove/clear, Hello heard,
     frames through the Darwin frame path"""
@@ -325,6 +352,8 @@ def campaign_c12(seed, tier):
     scs = []
     for i in range(64 if tier == "quick" else 6000):
         scs.append(sc_schedule("c12-sched-%d" % i, rng.randrange(1 << 30), 250, long_gaps=(i % 3 == 0)))
+    for i in range(6 if tier == "quick" else 100):
+        scs.append(sc_idle_engine("c12-idle-%d" % i, rng.randrange(1 << 30)))
     # long silences (no tick, no frame) followed by table changes made without a tick in between
     for gi, gap in enumerate([1000, 29000, 59000, 60000, 61000, 100000]):
         for variant in ("complete", "remove", "clear", "keep"):
